@@ -13,6 +13,24 @@ thread_local! {
     static POOLS: RefCell<BTreeMap<usize, Arc<rayon::ThreadPool>>> = RefCell::new(BTreeMap::new());
 }
 
+/// a key whose `Eq` and `Hash` ignore `tag`
+#[derive(Clone, Copy, Debug)]
+pub struct TagKey {
+    pub k: u32,
+    pub tag: u32,
+}
+impl PartialEq for TagKey {
+    fn eq(&self, o: &TagKey) -> bool {
+        self.k == o.k
+    }
+}
+impl Eq for TagKey {}
+impl std::hash::Hash for TagKey {
+    fn hash<H: std::hash::Hasher>(&self, h: &mut H) {
+        h.write_u32(self.k);
+    }
+}
+
 const POOL_SIZES: [usize; 9] = [1, 2, 3, 4, 8, 16, 5, 7, 32];
 
 pub(crate) fn pool(threads: u8) -> Arc<rayon::ThreadPool> {
@@ -278,6 +296,26 @@ impl<F: Fam> Ctx<F> {
                         let g2: Map<F> = dups.into_iter().collect();
                         if d1 != d2 || d2 != d1 || g1 != g2 || g2 != g1 {
                             return Err(format!("par_extend / from_par_iter of {} pairs over 3 repeated keys differs from extend / from_iter (the last pair for a key must win)", len));
+                        }
+                    }
+                    // keys that are equal but distinguishable (Eq / Hash ignore the tag): the parallel
+                    // constructors have to keep the same key object as the sequential ones (the
+                    // first one inserted) together with the last value
+                    {
+                        type TM = griddle::HashMap<TagKey, u32, std::hash::BuildHasherDefault<std::collections::hash_map::DefaultHasher>>;
+                        for len in [4usize, 7, 12 + rep as usize, 31] {
+                            let src: Vec<(TagKey, u32)> = (0..len as u32).map(|i| (TagKey { k: (i * 5 + rep as u32) % 4, tag: i }, i)).collect();
+                            let render = |m: &TM| -> Vec<(u32, u32, u32)> { sorted(m.iter().map(|(k, v)| (k.k, k.tag, *v)).collect()) };
+                            let seq: TM = src.iter().copied().collect();
+                            let par = TM::from_par_iter(src.clone());
+                            let mut e1 = TM::default();
+                            e1.insert(TagKey { k: 1, tag: 999 }, 0);
+                            let mut e2 = e1.clone();
+                            e1.extend(src.iter().copied());
+                            e2.par_extend(src.clone());
+                            if render(&seq) != render(&par) || render(&e1) != render(&e2) {
+                                return Err(format!("from_par_iter / par_extend of {} pairs over 4 repeated, distinguishable keys keep other key objects or values than from_iter / extend: {:?} vs {:?}", len, render(&par), render(&seq)));
+                            }
                         }
                     }
                     let f1 = Map::<F>::from_par_iter(items.clone());
